@@ -2216,6 +2216,16 @@ func (sa *Application) GetAskMaxPriority() int32 {
 }
 
 func (sa *Application) cleanupAsks() {
+	// a failed application can still have asks: their reservations and pending resources go with them
+	released := 0
+	for _, reserve := range sa.reservations {
+		released += sa.unReserveInternal(reserve)
+	}
+	if sa.queue != nil {
+		sa.queue.UnReserve(sa.ApplicationID, released)
+		sa.queue.decPendingResource(sa.pending)
+	}
+	sa.pending = resources.NewResource()
 	sa.requests = make(map[string]*Allocation)
 	sa.sortedRequests = nil
 }
